@@ -232,13 +232,18 @@ def _k1_cases(tier):
             # negated / non-negated leaves (the full set of 288 costs ~2 h on 16 cores for little extra)
             body = it[1] if it[0] == '!' else it
             if len(body) == 4:
-                keep = True
+                # flat: uniformly negated / non-negated leaves, and the ones with exactly the middle leaf negated
+                negs_ = tuple(x[0] == '!' for x in body[1:])
+                keep = negs_ in ((False, False, False), (True, True, True), (False, True, False))
             else:
                 inner = [x for x in body[1:] if x[0] in '&|' or (x[0] == '!' and x[1][0] in '&|')]
                 inner_body = inner[0][1] if inner[0][0] == '!' else inner[0]
                 leaves_ = [x for x in body[1:] if x is not inner[0]] + list(inner_body[1:])
                 negs = {x[0] == '!' for x in leaves_}
-                keep = (inner_body[0] != body[0]) and len(negs) == 1
+                # nested: && and || mixed, leaves uniformly negated / non-negated; the all-negated ones only with a
+                # non-negated inner operand (the whole run of all 128 kept by the earlier rule cost 27 cpu-hours on a
+                # loaded machine and found nothing the others did not)
+                keep = (inner_body[0] != body[0]) and (negs == {False} or (negs == {True} and inner[0][0] != '!' and it[0] != '!'))
             if not keep:
                 continue
             cases.append(('n', it))
@@ -250,6 +255,10 @@ def _k1_cases(tier):
         for a_ in A:
             for b_ in B:
                 for c_ in C:
+                    if c_[0] == '!' and a_[0] != 'u' and (a_[0] == '!') == (b_[0] == '!'):
+                        # three line-num matchers at the line level cost ~30 cpu-minutes each: only the four
+                        # combinations in which the first two differ in negation
+                        continue
                     for op1, op2 in (('&', '|'), ('|', '&')):
                         cases.append((op1, a_, (op2, b_, c_)))
                         cases.append(('!', (op1, (op2, a_, b_), c_)))
@@ -599,7 +608,7 @@ def obligations(tier: str) -> List[Ob]:
         for ks in itertools.product(RANGE_KINDS, repeat=2):
             for n in (0, 2, 3, 4):
                 k4_cases.append((ks, n, False, True))
-        for ks in (('single', 'both', 'lower'), ('both', 'upper', 'single'), ('both', 'both', 'both'), ('single', 'single', 'single')):
+        for ks in (('single', 'both', 'lower'), ('both', 'upper', 'single'), ('both', 'both', 'lower'), ('single', 'single', 'single')):
             k4_cases.append((ks, 3, False, True))
     # one transformer object applied to texts of several lengths in turn
     reapply = [(('both', 'single'), 3, (4,)), (('lower', 'upper'), 2, (4,)), (('single',), 2, (3,)), (('both',), 3, (1, 4))]
